@@ -20,6 +20,10 @@ import ast, codecs, inspect, os, sys, textwrap
 from gen_tables import OUT, coqstr, comment, write_if_changed, REPO  # noqa: E402
 
 
+def lstN_(xs):
+    return "[" + "; ".join(str(int(x)) for x in xs) + "]"
+
+
 class Shape(RuntimeError):
     pass
 
@@ -251,6 +255,115 @@ def read_replace_skip(UnicodeDammit):
     return found[0]
 
 
+
+# ------------------------------------------------------------------ find_declared_encoding (the sniffer)
+def read_sniff_patterns(dammit_mod):
+    """The two pattern texts, and for the four compiled objects of encoding_res: (input kind, which, pattern, flags)."""
+    import re
+    xml_t, html_t = dammit_mod.xml_encoding, dammit_mod.html_meta
+    if not (isinstance(xml_t, str) and isinstance(html_t, str)):
+        raise Shape("xml_encoding / html_meta are not str")
+    res = dammit_mod.encoding_res
+    if set(res.keys()) != {bytes, str}:
+        raise Shape("encoding_res does not have exactly the keys bytes and str")
+    rows = []
+    for ki, kind in ((0, bytes), (1, str)):
+        d = res[kind]
+        if set(d.keys()) != {"xml", "html"}:
+            raise Shape("encoding_res[%s] does not have exactly the keys xml and html" % kind.__name__)
+        for wi, which in ((0, "xml"), (1, "html")):
+            pat = d[which]
+            if not isinstance(pat, re.Pattern) or not isinstance(pat.pattern, kind):
+                raise Shape("encoding_res[%s][%s] is not a compiled %s pattern" % (kind.__name__, which, kind.__name__))
+            if pat.groups != 1:
+                raise Shape("encoding_res[%s][%s] does not have exactly one group" % (kind.__name__, which))
+            rows.append((ki, wi, pat.pattern, int(pat.flags)))
+    return xml_t, html_t, rows
+
+
+def read_sniff_windows(EncodingDetector):
+    """xml_endpos / html_endpos of find_declared_encoding and the shape of what is done with the two searches."""
+    from fractions import Fraction
+    f = _fn_ast(EncodingDetector.find_declared_encoding.__func__)
+    argnames = [a.arg for a in f.args.args]
+    if argnames != ["cls", "markup", "is_html", "search_entire_document"]:
+        raise Shape("find_declared_encoding: arguments are %r" % argnames)
+    defaults = [d.value for d in f.args.defaults if isinstance(d, ast.Constant)]
+    if defaults != [False, False]:
+        raise Shape("find_declared_encoding: defaults of is_html / search_entire_document are not False, False")
+    body = _strip_doc(f.body)
+    first = body[0]
+    if not (isinstance(first, ast.If) and _is_name(first.test, "search_entire_document")
+            and len(first.body) == 1 and len(first.orelse) == 2):
+        raise Shape("find_declared_encoding: does not start with `if search_entire_document:` / else two assignments")
+    a = first.body[0]
+    if not (isinstance(a, ast.Assign) and sorted(t.id for t in a.targets if isinstance(t, ast.Name)) == ["html_endpos", "xml_endpos"]
+            and isinstance(a.value, ast.Call) and _is_name(a.value.func, "len") and _is_name(a.value.args[0], "markup")):
+        raise Shape("find_declared_encoding: search_entire_document does not set both end positions to len(markup)")
+    x, h = first.orelse
+    if not (isinstance(x, ast.Assign) and len(x.targets) == 1 and _is_name(x.targets[0], "xml_endpos")):
+        raise Shape("find_declared_encoding: xml_endpos assignment not found")
+    xml_window = _const(x.value, int)
+    if not (isinstance(h, ast.Assign) and len(h.targets) == 1 and _is_name(h.targets[0], "html_endpos")
+            and isinstance(h.value, ast.Call) and _is_name(h.value.func, "max") and len(h.value.args) == 2):
+        raise Shape("find_declared_encoding: html_endpos is not max(<int>, ...)")
+    html_min = _const(h.value.args[0], int)
+    frac = h.value.args[1]
+    if not (isinstance(frac, ast.Call) and _is_name(frac.func, "int") and len(frac.args) == 1
+            and isinstance(frac.args[0], ast.BinOp) and isinstance(frac.args[0].op, ast.Mult)
+            and isinstance(frac.args[0].left, ast.Call) and _is_name(frac.args[0].left.func, "len")
+            and _is_name(frac.args[0].left.args[0], "markup")):
+        raise Shape("find_declared_encoding: html_endpos is not max(<int>, int(len(markup) * <float>))")
+    fl = _const(frac.args[0].right, float)
+    fr = Fraction(fl).limit_denominator(1000)
+    if fr <= 0 or float(fr.numerator) / float(fr.denominator) != fl:
+        raise Shape("find_declared_encoding: the fraction %r is not a small rational" % fl)
+    # int(n * fl) must be floor(n * num / den): measured on every length up to 300 000 and around powers of two
+    ns = list(range(0, 300001)) + [2 ** k + d for k in range(19, 40) for d in (-1, 0, 1)] + [20 * k for k in range(15000, 400000, 997)]
+    for n in ns:
+        if int(n * fl) != (n * fr.numerator) // fr.denominator:
+            raise Shape("int(n * %r) differs from floor(n * %s) at n = %d" % (fl, fr, n))
+    # the rest of the function: which pattern is searched with which end position, the is_html gate,
+    # the ascii/replace decoding of a bytes group and the final lower()
+    src = ast.unparse(ast.Module(body=body[1:], type_ignores=[]))
+    want = [
+        "xml_re = res['xml']", "html_re = res['html']",
+        "declared_encoding_match = xml_re.search(markup, endpos=xml_endpos)",
+        "if not declared_encoding_match and is_html:\n    declared_encoding_match = html_re.search(markup, endpos=html_endpos)",
+        "if declared_encoding_match is not None:\n    declared_encoding = declared_encoding_match.groups()[0]",
+        "if declared_encoding:\n    if isinstance(declared_encoding, bytes):\n        declared_encoding = declared_encoding.decode('ascii', 'replace')\n    return declared_encoding.lower()\nreturn None",
+        "if isinstance(markup, bytes):\n    res = encoding_res[bytes]\nelse:\n    res = encoding_res[str]",
+    ]
+    for w in want:
+        if w not in src:
+            raise Shape("find_declared_encoding: statement not found (code changed?): " + w.split("\n")[0])
+    n_search = sum(1 for n in ast.walk(f) if isinstance(n, ast.Attribute) and n.attr == "search")
+    if n_search != 2:
+        raise Shape("find_declared_encoding: %d .search calls, expected 2" % n_search)
+    return xml_window, html_min, fr.numerator, fr.denominator
+
+
+def read_re_semantics():
+    """Interpreter oracle about `re` (not about bs4): which characters \\s matches, which characters `.` does
+    not match, and which characters match each letter of the three keywords under re.I - for bytes and str."""
+    import re
+    letters = sorted(set("encoding" + "meta" + "charset"))
+    allb = bytes(range(256))
+    alls = "".join(chr(c) for c in range(0x110000))
+    out = {}
+    out["ws_bytes"] = sorted(m[0] for m in re.compile(rb"\s").findall(allb))
+    out["ws_str"] = sorted(ord(m) for m in re.compile(r"\s").findall(alls))
+    out["dot_bytes"] = sorted(set(range(256)) - {m[0] for m in re.compile(rb".").findall(allb)})
+    dots = set(re.compile(r".").findall(alls))
+    out["dot_str"] = sorted(c for c in range(0x110000) if chr(c) not in dots)
+    out["ci_bytes"] = [(ord(l), sorted(m[0] for m in re.compile(l.encode(), re.I).findall(allb))) for l in letters]
+    out["ci_str"] = [(ord(l), sorted(ord(m) for m in re.compile(l, re.I).findall(alls))) for l in letters]
+    for k in ("ws_bytes", "ws_str"):
+        if not out[k]:
+            raise Shape("no whitespace?")
+    return out
+
+
 def _known_to_interpreter(name):
     try:
         codecs.lookup(name)
@@ -266,6 +379,10 @@ def main():
     rules = read_bom_rules(EncodingDetector)
     order, tup = read_encodings(EncodingDetector)
     skip = read_replace_skip(UnicodeDammit)
+    import bs4.dammit as dammit_mod
+    xml_t, html_t, compiled = read_sniff_patterns(dammit_mod)
+    xml_window, html_min, fnum, fden = read_sniff_windows(EncodingDetector)
+    resem = read_re_semantics()
     aliases = UnicodeDammit.CHARSET_ALIASES
     if not isinstance(aliases, dict) or not all(isinstance(k, str) and isinstance(v, str) for k, v in aliases.items()):
         raise Shape("CHARSET_ALIASES is not a str->str dict")
@@ -302,6 +419,30 @@ def main():
     o.append("Definition charset_alias_target_known : list (list N * bool) := [" + "; ".join(
         "(%s, %s)" % (coqstr(v), "true" if _known_to_interpreter(v) else "false")
         for k, v in sorted(aliases.items())) + "].")
+    o.append("")
+    o.append(comment("find_declared_encoding: the two pattern texts (module constants xml_encoding, html_meta)"))
+    o.append("Definition xml_pattern_text : list N := %s." % coqstr(xml_t))
+    o.append("Definition html_pattern_text : list N := %s." % coqstr(html_t))
+    o.append(comment("encoding_res: (0 bytes | 1 str, 0 xml | 1 html, .pattern, .flags) of the four compiled patterns; "
+                     "re.IGNORECASE = 2, re.UNICODE = 32"))
+    o.append("Definition sniff_compiled : list (N * N * list N * N) := [\n" + ";\n".join(
+        "  (%d, %d, %s, %d)" % (k, w, coqstr(p), fl) for k, w, p, fl in compiled) + "\n].")
+    o.append(comment("find_declared_encoding: xml_endpos, and html_endpos = max(min, int(len * num / den)) "
+                     "(the float literal is num/den; int(n * literal) = floor(n * num / den) measured by the translator)"))
+    o.append("Definition sniff_xml_window : N := %d." % xml_window)
+    o.append("Definition sniff_html_window_min : N := %d." % html_min)
+    o.append("Definition sniff_html_window_num : N := %d." % fnum)
+    o.append("Definition sniff_html_window_den : N := %d." % fden)
+    o.append(comment("interpreter oracle about `re`: what \\s matches, what `.` does not match, and what matches each letter "
+                     "of encoding / meta / charset under re.I, for bytes patterns and for str patterns"))
+    o.append("Definition re_ws_bytes : list N := %s." % lstN_(resem["ws_bytes"]))
+    o.append("Definition re_ws_str : list N := %s." % lstN_(resem["ws_str"]))
+    o.append("Definition re_dot_excludes_bytes : list N := %s." % lstN_(resem["dot_bytes"]))
+    o.append("Definition re_dot_excludes_str : list N := %s." % lstN_(resem["dot_str"]))
+    o.append("Definition re_ci_bytes : list (N * list N) := [" + "; ".join(
+        "(%d, %s)" % (l, lstN_(cs)) for l, cs in resem["ci_bytes"]) + "].")
+    o.append("Definition re_ci_str : list (N * list N) := [" + "; ".join(
+        "(%d, %s)" % (l, lstN_(cs)) for l, cs in resem["ci_str"]) + "].")
     o.append("")
     text = "\n".join(o) + "\n"
     changed = write_if_changed(os.path.join(OUT, "T_C07.v"), text)
